@@ -45,7 +45,7 @@ def gen_world(rng):
         out = []
         for j in range(rng.randint(0, 4)):
             first = rng.choice([owner + '*', owner + '*', owner + '**', rng.choice(own) + '*', 'gint', None, 'GObject*'])
-            out.append(('vf%d%s' % (j, rng.choice(['', '_x', 'Z'])), first))
+            out.append(('vf%d%s' % (j, rng.choice(['', '_x', 'Z'])), first, rng.choice([0, 0, 1, 2])))
         return out
     for i, c in enumerate(classes):
         recs.append((c[3:], []))
@@ -123,8 +123,8 @@ def symbols(world, S):
         name = 'Foo' + local
         syms.append(S.FS(S.CSYMBOL_TYPE_TYPEDEF, name, base_type=S.FT(S.CTYPE_STRUCT, '_' + name), line=line))
         kids = [S.FS(S.CSYMBOL_TYPE_MEMBER, 'parent', base_type=S.td('gint'), line=line + 1)]
-        for fname, first in cbs:
-            ps = [] if first is None else [S.param('self_', ctype_tree(first)), S.param('x', S.td('gint'))]
+        for fname, first, nextra in cbs:
+            ps = [] if first is None else [S.param('self_', ctype_tree(first))] + [S.param('x%d' % q, S.td('gint')) for q in range(nextra)]
             kids.append(S.FS(S.CSYMBOL_TYPE_MEMBER, fname, base_type=S.ptr(S.FT(S.CTYPE_FUNCTION, base_type=S.VOID, child_list=ps)), line=line + 2))
         syms.append(S.FS(S.CSYMBOL_TYPE_STRUCT, '_' + name, base_type=S.FT(S.CTYPE_STRUCT, '_' + name, child_list=kids), line=line + 5))
         line += 20
@@ -222,7 +222,7 @@ def coq_world(i, world, obs_classes, obs_recs, obs_funcs):
         if n.startswith('Foo'):
             return '(Some %s)' % cstr('Foo.' + n[3:])
         return '(Some %s)' % cstr(INCLUDES.get(n, n))
-    recs = clist(['{| wr_name := %s; wr_cbs := %s |}' % (cstr(l), clist(['(%s, %s)' % (cstr(f), first_gi(fp)) for f, fp in cbs]))
+    recs = clist(['{| wr_name := %s; wr_cbs := %s |}' % (cstr(l), clist(['(%s, %s)' % (cstr(f), first_gi(fp)) for f, fp, _ in cbs]))
                   for l, cbs in world['recs']])
     return ('{| m_id := %d; m_includes := incl; m_recs := %s; m_dump := %s; m_funcs := %s; m_obs_classes := %s; m_obs_recs := %s; '
             'm_obs_funcs := %s |}' % (i, recs, clist(dump), clist([cstr(f) for f in world['funcs']]), clist(obs_classes), clist(obs_recs),
@@ -269,6 +269,14 @@ def main(tier, seed):
                 if pel.get('name') == p['name'] and want != got:
                     ck.failing_input('property flags differ from the reported flag bits', dict(world=w, type=d['name'], property=p),
                                      detail=dict(expected=want, got=got))
+            recmap = dict((l, cbs) for l, cbs in w['recs'])
+            local = d['name'][3:]
+            sname = (local + 'Class') if d['k'] == 'class' else next((local + sfx for sfx in ('Iface', 'Interface') if local + sfx in recmap), None)
+            want_vf = sorted(f for f, first, _ in recmap.get(sname, []) if first is not None and first.rstrip('*') == d['name']) if sname in recmap else []
+            got_vf = [v.get('name') for v in el.findall(S.CORE + 'virtual-method')]
+            if got_vf != want_vf:
+                ck.failing_input('virtual methods are not exactly the function-pointer members whose first parameter is the instance',
+                                 dict(world=w, type=d['name']), detail=dict(expected=want_vf, got=got_vf))
             if d['k'] == 'class':
                 known = set(INCLUDES) | set(x['name'] for x in w['dump'])
                 nearest = next((p for p in d['parents'] if p in known), None)
